@@ -127,8 +127,8 @@ def type_families(rnd):
     S = Ty("struct", name="S", members=[("x", U), ("d", Ty("darr", t=U, n=rnd.randint(1, 3))),
                                         ("s", Ty("bytes", n=rnd.choice([31, 33, 64]), string=rnd.random() < 0.5)), ("y", U)])
     fam_nested = [S, Ty("sarr", t=Ty("darr", t=U, n=rnd.randint(1, 3)), n=2), Ty("darr", t=S, n=2),
-                  Ty("sarr", t=Ty("bytes", n=33, string=False), n=2)]
-    return [rnd.choice(fam_darr), rnd.choice(fam_darr), rnd.choice(fam_bytes), rnd.choice(fam_nested)]
+                  Ty("sarr", t=P, n=2)]
+    return [rnd.choice(fam_darr), rnd.choice(fam_darr), rnd.choice(fam_nested), rnd.choice(fam_bytes)]
 
 
 SRCS = ["c", "m", "s", "t", "i"]
